@@ -74,10 +74,110 @@ def run(ctx):
         # (who calls the search, and with which combiner, is not the judge's)
         ctx.withdraw_failures_since(
             mark_ac, "decided by interpreting map_commut_assoc", prefix="P/ac/")
+    _variable_handler(ctx, model)
     _matchpy(ctx, model)
 
 
 # ---------------------------------------------------------------------------
+
+def _judge_map_variable(model, mem):
+    """interpretive judge: UnifierBase.map_variable on (pattern variable x,
+    target, incoming records), with the equation filter and the merge as
+    hooks.  Whenever the filter hands back a record for (x, target) -- also
+    when the target is the variable x itself -- the result is the merge of
+    the incoming records with it: a candidate that is matched "literally"
+    without the record x = x stays free and can be bound to something else by
+    its next occurrence (f(x, x) against f(x, t)).  Without a record, a
+    same-named target variable passes the incoming records on exactly when x
+    is not a candidate; everything else yields no record.  -> witnesses"""
+    from ..absint import Interp, Obj, Opaque, Raised, StepBound, module_env
+    fn = mem.node
+    glob = module_env(mem.owner.module.tree, {})
+    wit = []
+    URECS = ["<incoming records>"]
+    for other_kind in ("same-name variable", "other variable", "a sum"):
+        for has_rec in (True, False):
+            for cand in (True, False):
+                if has_rec and not cand:
+                    continue        # the filter records candidates only
+                x = Obj("Variable", {"name": "x"})
+                other = (Obj("Variable", {"name": "x"})
+                         if other_kind == "same-name variable" else
+                         Obj("Variable", {"name": "t"})
+                         if other_kind == "other variable" else
+                         Obj("Sum", {"children": (1, 2)}))
+                REC = Obj("UnificationRecord", {})
+                me = Obj("unifier", {
+                    "lhs_mapping_candidates": {"x"} if cand else {"q"},
+                    "rhs_mapping_candidates": set(),
+                    "force_var_match": True})
+                seen = []
+
+                def record(it, nd, a, k, _r=REC if has_rec else None, _s=seen):
+                    _s.append(tuple(a))
+                    return _r
+
+                def merge(it, nd, a, k):
+                    return ("merged", a[0], a[1])
+
+                def isinst(it, nd, a, k):
+                    what = getattr(a[1], "what", "")
+                    if what.split(" ")[-1].split(".")[-1] == "Variable":
+                        return isinstance(a[0], Obj) and a[0].cls == "Variable"
+                    from ..absint import default_isinstance
+                    r = default_isinstance(a[0], a[1])
+                    if r is None:
+                        raise AnalysisError(f"isinstance(..., {a[1]!r})")
+                    return r
+                it = Interp(calls={
+                    "self.unification_record_from_equation": record,
+                    "unify_many": merge, "isinstance": isinst},
+                    attrs=lambda it_, n_, b, at: Opaque(ast.unparse(n_)),
+                    globals_=glob, max_steps=5000)
+                label = (f"pattern variable x ({'a' if cand else 'not a'} "
+                         f"candidate) against {other_kind}, the filter "
+                         f"{'gives a record' if has_rec else 'gives none'}")
+                try:
+                    got = it.call_function(fn, [me, x, other, URECS], dict(glob))
+                except Raised as r:
+                    wit.append(f"{label}: raises at line "
+                               f"{getattr(r.node, 'lineno', '?')}")
+                    continue
+                except StepBound:
+                    wit.append(f"{label}: does not terminate")
+                    continue
+                if has_rec:
+                    ok = got == ("merged", URECS, REC) or (
+                        isinstance(got, tuple) and got[:1] == ("merged",) and
+                        got[1] is URECS and got[2] is REC)
+                    want = "the incoming records merged with the new record"
+                elif other_kind == "same-name variable" and not cand:
+                    ok = got is URECS
+                    want = "the incoming records as they are"
+                else:
+                    ok = got == []
+                    want = "no record"
+                if not ok:
+                    wit.append(f"{label}: answers {got!r}, expected {want}")
+    return wit
+
+
+def _variable_handler(ctx, model):
+    ub = model.cls(f"{UNI}:UnifierBase")
+    mem = model.lookup(ub, "map_variable")
+    if mem is None or mem.kind != "func":
+        raise AnalysisError("UnifierBase.map_variable not found")
+    try:
+        wit = _judge_map_variable(model, mem)
+    except AnalysisError as e:
+        ctx.extra["judge_unavailable:UnifierBase.map_variable"] = str(e)
+        return
+    ctx.ob("P0/UnifierBase/map_variable/binding-semantics", not wit, where(mem),
+           "map_variable interpreted on 9 combinations of target, filter answer "
+           "and candidacy: a record the filter gives is always merged in (also "
+           "for x against x), a literal match passes only for non-candidates"
+           if not wit else "UnifierBase.map_variable: " + "; ".join(wit[:2]))
+
 
 def _guard_on_other(ps):
     """has the path established isinstance(other, type(expr))?"""
